@@ -52,8 +52,8 @@ def fold_rules(ctx, fn: core.FuncInfo, it: roles.Interpreter, R: roles.Roles, co
         ctx.fail('C12.roles', fn, f'wiring construct outside the interpreter vocabulary: {it.incomplete}', fn.node, key='incomplete')
         return
     expands = [e for e in it.events if e.kind == 'expand' and e.data['source'].name == composable]
-    ctx.check(len(expands) == 1 and len(expands[0].loops) == 1 and 'range(self._nsplits)' in expands[0].loops[0][1], 'C12.fold', fn, f'{label}: the scope is expanded afresh inside the fold loop over range(nsplits) (independent graph per fold)', expands[0].node if expands else fn.node, key='expand-in-loop')
-    if not expands:
+    ctx.check(len(expands) == 1 and len(expands[0].loops) == 1 and 'range(self._nsplits)' in (expands[0].loops[0][1] if expands[0].loops else ''), 'C12.fold', fn, f'{label}: the scope is expanded afresh inside the fold loop over range(nsplits) (independent graph per fold)', expands[0].node if expands else fn.node, key='expand-in-loop')
+    if not expands or not expands[0].loops:
         return
     trunk = expands[0].data['trunk']
     k = expands[0].loops[0][0]
@@ -89,7 +89,7 @@ def crossval(ctx) -> None:
     R = roles.Roles(it, {'features': Role(TRAIN, 'WHOLE'), 'labels': Role(LABEL, 'WHOLE')})
     fold_rules(ctx, fn, it, R, 'pipeline', 'CrossVal')
     expands = [e for e in it.events if e.kind == 'expand']
-    if not expands:
+    if not expands or not expands[0].loops:
         return
     trunk, k = expands[0].data['trunk'], expands[0].loops[0][0]
     ins = R.inputs(trunk.segs['apply'])
@@ -145,7 +145,7 @@ def ensembler(ctx) -> None:
     R = roles.Roles(it)
     fold_rules(ctx, fn, it, R, 'scope', 'Ensembler')
     expands = [e for e in it.events if e.kind == 'expand']
-    if not expands:
+    if not expands or not expands[0].loops:
         return
     trunk, k = expands[0].data['trunk'], expands[0].loops[0][0]
     ins = R.inputs(trunk.segs['apply'])
